@@ -417,6 +417,36 @@ def whileOK (t : Name) (body : List Stmt) (lo : VSet) : Bool :=
    | _, _ => false) &&
   stableStmt (.while_ (.var t) body) lo
 
+mutual
+/-- Statements of the nested-loop fragment, given the live-out set of the statement: assignments of tensor-valued
+expressions, tuple assignments from a multi-output operator call, `if`/`else`, `for i in range(b)` and `while t` loops (no `break`), nested in each other to any
+depth.  The side conditions of a loop are those of `forOK` / `whileOK`, taken at the live-out set the analysis
+computes for it; that the loop variable of a `for` is not live after it is listed explicitly (the converter
+refuses the loop otherwise: 9b326d7). -/
+def nestStmt : Stmt → VSet → Bool
+  | .assign _ e, _ => tensorRhs e
+  | .par _ es, _ => es.all tensorRhs
+  | .skip, _ => true
+  | .tuple xs (.call _ _ _ _ _), _ => nodupB xs     -- `x, y = op.Foo(…)`: a multi-output operator, distinct targets
+  | .ite c t e, lo => tensorRhs c && nestBlock t lo && nestBlock e lo
+  | .for_ i ok b body, lo =>
+    ok && tensorRhs b && !(lo.contains i) &&
+    (match assignedBlock body with
+     | some d => !(d.contains i)
+     | none => false) &&
+    stableStmt (.for_ i ok b body) lo && nestBlock body (loopBodyLo (.for_ i ok b body) lo)
+  | .while_ (.var t) body, lo =>
+    (match assignedBlock body, loopState body lo with
+     | some _, some state =>
+       state.contains t || !(liveInBlock body (loopBodyLo (.while_ (.var t) body) lo)).contains t
+     | _, _ => false) &&
+    stableStmt (.while_ (.var t) body) lo && nestBlock body (loopBodyLo (.while_ (.var t) body) lo)
+  | _, _ => false
+def nestBlock : List Stmt → VSet → Bool
+  | [], _ => true
+  | s :: ss, lo => nestStmt s (liveInBlock ss lo) && nestBlock ss lo
+end
+
 /-- Top-level statements of the loop fragment: `if`-fragment statements, `for i in range(b)` and `while t` loops. -/
 def forTopStmt : Stmt → VSet → Bool
   | .for_ i ok b body, lo => ok && forOK i b body lo
@@ -431,5 +461,15 @@ def forLine : List Stmt → Bool
     match s, ss with
     | .ret _ bare, [] => !bare
     | _, _ => forTopStmt s (liveInBlock ss []) && forLine ss
+
+/-- Function bodies of the nested-loop fragment: statements of `nestStmt` (loops nested in loops and branches
+to any depth, no `break`) or of the loop fragment of `forLine` (top-level loops over `if`-fragment bodies, with a
+trailing `break` allowed), followed by one `return e1, …, en`. -/
+def nestLine : List Stmt → Bool
+  | [] => false
+  | s :: ss =>
+    match s, ss with
+    | .ret _ bare, [] => !bare
+    | _, _ => (nestStmt s (liveInBlock ss []) || forTopStmt s (liveInBlock ss [])) && nestLine ss
 
 end OV.C01
